@@ -1,9 +1,7 @@
-"""E-CONS prototype: construct grammar IR from declarations + analyses (consumption, kinds, exceptions)."""
+"""E-CONS: construct grammar IR from the declaration expressions (the library itself is never imported) + analyses."""
 from __future__ import annotations
-import ast, os
+import ast
 from dataclasses import dataclass, field
-
-SRC = os.environ.get("AMSHAN_REPO", "/repo") + "/han"
 
 
 @dataclass(eq=False)
@@ -45,7 +43,7 @@ PRIMS = {"Int8ub": (1, False), "Int8sb": (1, True), "Int16ub": (2, False), "Int1
 class Module:
     def __init__(self, name, world):
         self.name, self.world = name, world
-        self.tree = ast.parse(open(f"{SRC}/{name}.py").read())
+        self.tree = world.src.tree(name)
         self.env, self.funcs, self.imports = {}, {}, {}
         for s in self.tree.body:
             if isinstance(s, ast.ImportFrom) and s.module == "han":
@@ -184,7 +182,8 @@ class Module:
 
 
 class World:
-    def __init__(self):
+    def __init__(self, src):
+        self.src = src
         self.mods = {}
 
     def module(self, name):
@@ -352,43 +351,38 @@ def find_ident(n: N, target: N, path=""):
                 yield from find_ident(x, target, here)
 
 
-if __name__ == "__main__":
-    w = World()
-    cos = w.module("cosem")
-    dt = cos.env["DateTime"]
-    print("DateTime consumption (structural min,max):", consumption(dt))
-    for s in dt.a["subs"]:
-        print("   ", s.name, s.kind, consumption(s), kinds(s))
-    for mod, names in (("aidon", ["NotificationBody", "LlcPdu"]), ("kaifa", ["NotificationBody", "LlcPdu"]), ("kamstrup", ["NotificationBody", "LlcPdu"])):
-        m = w.module(mod)
-        for nm in names:
-            g = m.env[nm]
-            print(f"== {mod}.{nm}: consumption {consumption(g)}; DateTime reachable at:")
-            for pth in find_ident(g, dt):
-                print("      ", pth)
-            for pth, node, guarded in raw_lambda_sites(g):
-                if node.kind == "Computed" and isinstance(node.a["expr"].node, ast.Lambda) or node.kind == "Computed":
-                    print(f"   lambda {'(guarded)' if guarded else '(RAW ESCAPE)'} {pth}: {node.a['expr'].src[:70]}")
-    # aidon element value kinds
-    el = w.module("aidon").env["Element"]
-    content = [s for s in el.a["subs"] if s.name == "content"][0]
-    dflt = content.a["default"]
-    uv = [s for s in dflt.a["subs"] if s.name == "unscaled_value"][0]
-    print("aidon unscaled_value kinds:", kinds(uv), "has_default:", uv.a["has_default"])
-    kel = w.module("kaifa").env["NotificationBodyValueElements"]
-    print("GreedyRange bodies min consumption:")
-    for mod in ("cosem", "kaifa", "kamstrup"):
-        for nm, g in w.module(mod).env.items():
-            if isinstance(g, N):
-                def gr(n, seen=set()):
-                    if id(n) in seen:
-                        return
-                    seen.add(id(n))
-                    if n.kind == "GreedyRange":
-                        print("   ", mod, nm, "GreedyRange body min", consumption(n.a["sub"])[0])
-                    for v in n.a.values():
-                        vs = [v] if isinstance(v, N) else v if isinstance(v, list) else list(v.values()) if isinstance(v, dict) else []
-                        for x in vs:
-                            if isinstance(x, N):
-                                gr(x)
-                gr(g)
+
+
+def first_octets(n: N, depth=0):
+    """set of octet values a parse of this node can start with (None = any / unknown)"""
+    if n is None or depth > 12:
+        return None
+    k = n.kind
+    if k == "Const":
+        v = n.a["value"]
+        if isinstance(v, EnumVal):
+            return {v.value}
+        if isinstance(v, int):
+            return {v}
+        if isinstance(v, (bytes, str)) and len(v):
+            return {v[0] if isinstance(v, bytes) else ord(v[0])}
+        return None
+    if k in ("Struct", "FocusedSeq"):
+        for s in n.a["subs"]:
+            if not isinstance(s, N):
+                continue
+            if consumption(s)[1] == 0:
+                continue  # Peek / Computed / Check consume nothing
+            return first_octets(s, depth + 1)
+        return None
+    if k == "Select":
+        out = set()
+        for s in n.a["subs"]:
+            f = first_octets(s, depth + 1)
+            if f is None:
+                return None
+            out |= f
+        return out
+    if k in ("Enum", "ExprAdapter", "Peek"):
+        return None
+    return None
